@@ -49,6 +49,10 @@ class ZNCCTemplateMatcher(BaseTemplateMatcher):
             min_score=min_score,
         )
 
+    def _get_search_margin(self, min_distance: float, **kwargs) -> int:
+        # NOTE: landscape is one pixel narrower than the chunk on the lower side
+        return int(np.ceil(min_distance)) + 1
+
     def pick_in_chunk(
         self,
         image: NDArray[np.float32],
